@@ -221,8 +221,31 @@ BAD_SER = [({'scale': 0}, 'all'), ({'scale': -1}, 'all'), ({'scale': -0.5}, 'all
            # a colour with a non-opaque alpha channel handed to a writer without alpha support is neither honoured nor
            # well-formed for that writer: it must be refused, not silently flattened ("honoured or refused")
            ({'dark': '#11223380'}, 'noalpha'), ({'light': '#1238'}, 'noalpha'), ({'dark': (10, 20, 30, 128)}, 'noalpha'),
-           ({'light': (10, 20, 30, 0.5)}, 'noalpha')]
+           ({'light': (10, 20, 30, 0.5)}, 'noalpha'),
+           # float alpha outside 0.0..1.0 / float component > 255: malformed although the tuple compares (and hashes) equal to a
+           # well-formed tuple of ints - see _twin() below
+           ({'dark': (0, 0, 0, 2.0)}, 'color'), ({'light': (10, 20, 30, 255.0)}, 'color'), ({'dark': (0, 0, 0, 128.0)}, 'color'),
+           ({'light': (0, 0, 0, 1.5)}, 'color'), ({'dark': (256.0, 0, 0)}, 'color')]
 NOALPHA_KINDS = ('eps', 'pdf', 'ppm', 'xpm')
+
+
+def _twin(bad):
+    """A *near twin* of a malformed serialiser argument: a value that compares equal, hashes equal or normalises to the same
+    thing (int for an integral float, the stripped / other-case string) and is usually well-formed. Issued right before the
+    malformed call in half of the c14.ser checks: a refusal must not depend on what was accepted before (memoised validation
+    keyed by ==/hash, normalisation caches).  Its own outcome is not judged."""
+    (k, v), = bad.items()
+    if isinstance(v, tuple) and any(isinstance(x, float) and x == int(x) for x in v):
+        return {k: tuple(int(x) if isinstance(x, float) and x == int(x) else x for x in v)}
+    if isinstance(v, tuple) and len(v) == 4 and isinstance(v[3], float):
+        return {k: v[:3] + (int(v[3]),)}
+    if isinstance(v, str) and v.strip() and v.strip() != v:
+        return {k: v.strip()}
+    if isinstance(v, str) and v.upper() != v:
+        return {k: v.upper()}
+    if isinstance(v, float) and v == int(v):
+        return {k: int(v)}
+    return None
 
 
 # ----------------------------------------------------------------------------------------
@@ -272,7 +295,7 @@ def gen_scenario(batch_seed, i, tier):
                   excluded=sorted(rng.sample(range(len(excluded_calls())), 8)),
                   spell=[[rng.randrange(len(SPELLINGS)), core.enc(gen.text(rng, rng.choice(('numeric', 'alphanumeric', 'byte')), rng.randint(1, 20), 'ascii'))]
                          for _ in range(4)],
-                  ser=[[rng.choice(opts.KINDS), rng.randrange(len(BAD_SER)), rng.random() < 0.5] for _ in range(10)],
+                  ser=[[rng.choice(opts.KINDS), rng.randrange(len(BAD_SER)), rng.random() < 0.5, rng.random() < 0.5] for _ in range(14)],
                   kind_spell=[rng.choice(opts.KINDS) for _ in range(3)])
     else:
         threads = [[]]
@@ -528,7 +551,7 @@ def _exec_calls(segno, sc, res, viols, counters):
             viols.append(_viol('c14.spelling', 'make(%r, %s) and make(%r, %s) differ: %s vs %s' % (content, _kwstr(canon), content, _kwstr(alt),
                                                                                                 a[0] if a[0] != 'ok' else a[1].designator, b[0] if b[0] != 'ok' else b[1].designator), spelling=si))
     q = segno.make('C14', micro=False)
-    for kind, bi, upper in sc['ser']:
+    for kind, bi, upper, *prime in sc['ser']:
         bad, scope = BAD_SER[bi]
         if scope == 'color' and kind not in COLOR_KINDS:
             continue
@@ -538,6 +561,17 @@ def _exec_calls(segno, sc, res, viols, counters):
             continue
         out = io.BytesIO() if kind in opts.BINARY_KINDS else io.StringIO()
         counters['serialiser_refusals_checked'] = counters.get('serialiser_refusals_checked', 0) + 1
+        twin = _twin(bad) if prime and prime[0] else None
+        if twin is not None:
+            counters['serialiser_refusals_after_twin'] = counters.get('serialiser_refusals_after_twin', 0) + 1
+            try:
+                with sched.StepGuard(CALL_BUDGET):
+                    q.save(io.BytesIO() if kind in opts.BINARY_KINDS else io.StringIO(), kind=kind, **twin)
+                log.append(['twin', kind, bi, 'returned'])
+            except sched.StepBudgetExceeded:
+                log.append(['twin', kind, bi, 'budget'])
+            except Exception as ex:  # noqa  (not judged: the twin may be malformed too, or unsupported by this writer)
+                log.append(['twin', kind, bi, type(ex).__name__])
         try:
             with sched.StepGuard(CALL_BUDGET):
                 q.save(out, kind=kind.upper() if upper else kind, **bad)
@@ -550,7 +584,8 @@ def _exec_calls(segno, sc, res, viols, counters):
             st = '%s: %s' % (type(ex).__name__, ex)
         log.append(['ser', kind, bi, st])
         if st != 'ValueError':
-            viols.append(_viol('c14.ser', 'save(kind=%r, %s) was not refused with ValueError: %s' % (kind, _kwstr(bad), st[:80]), ser=[kind, bi]))
+            viols.append(_viol('c14.ser', 'save(kind=%r, %s)%s was not refused with ValueError: %s' % (
+                kind, _kwstr(bad), ' after save(%s)' % _kwstr(twin) if twin is not None else '', st[:80]), ser=[kind, bi]))
     for kind in sc['kind_spell']:
         outs = []
         for spelling in (kind, kind.upper(), kind.capitalize()):
@@ -666,9 +701,11 @@ def minimise(sc, viol, fails):
             if fails(cand):
                 cur = cand
         elif 'ser' in d and d['ser'][0] != 'kind':
-            cand = dict(cur, calls=[], excluded=[], spell=[], ser=[x for x in cur['ser'] if x[:2] == d['ser']][:1], kind_spell=[])
-            if fails(cand):
-                cur = cand
+            for one in [x for x in cur['ser'] if x[:2] == d['ser']]:
+                cand = dict(cur, calls=[], excluded=[], spell=[], ser=[one], kind_spell=[])
+                if fails(cand):
+                    cur = cand
+                    break
         elif 'spelling' in d:
             cand = dict(cur, calls=[], excluded=[], spell=[x for x in cur['spell'] if x[0] == d['spelling']][:1], ser=[], kind_spell=[])
             if fails(cand):
